@@ -44,6 +44,14 @@ func buildPathOps(m *Model, choices []int, salt uint64, maxOps int) (ops []Op, b
 		switch st {
 		case "PENDING":
 			inv := m.pending
+			if inv.Sched.Polls > 100 && polls == 0 {
+				// a host that polls a slow command a thousand times: one burst, beyond the op budget
+				for polls < inv.Sched.Polls {
+					polls++
+					ops = append(ops, recordNext(m, 0))
+				}
+				continue
+			}
 			if polls < inv.Sched.Polls {
 				polls++
 				ops = append(ops, recordNext(m, junkArgs[int((salt+uint64(len(ops)))%uint64(len(junkArgs)))]))
@@ -148,6 +156,9 @@ func drawScheds(tp *Tape, allowErr bool) []Sched {
 			s.Polls = 0
 		case 2:
 			s.Polls = tp.Int(1, 4, "polls")
+			if tp.Int(0, 299, "manypolls") == 0 {
+				s.Polls = tp.Int(1001, 1300, "nmanypolls")
+			}
 		}
 		if allowErr {
 			s.Err = tp.Chance(25, "schederr")
@@ -337,6 +348,19 @@ func driveTape(tp *Tape, m *Model, cfg *DriveCfg, st *Stats) (ops []Op, choices 
 				advance(2 * eps)
 				if st != nil {
 					st.fault("wait_boundary_poll")
+				}
+				continue
+			}
+			if inv.Sched.Polls > 100 && polls == 0 {
+				// a host that polls a slow command a thousand times: one burst, beyond the op budget
+				for polls < inv.Sched.Polls {
+					polls++
+					op := recordNext(m, 0)
+					op.Note = "poll"
+					ops = append(ops, op)
+				}
+				if st != nil {
+					st.probe("command_polled_over_1000_times")
 				}
 				continue
 			}
